@@ -27,7 +27,7 @@ def app(environ, start_response):
             if pat == ["stall"]:
                 while True:
                     yield b""
-            if pat == ["blocked"]:
+            if pat == ["blocked"] or pat == ["slow"]:
                 while True:
                     yield b"piece"
             for x in pat:
@@ -90,6 +90,9 @@ class Rig:
         if PATTERN[0] == ["blocked"] and not self.f.closed:
             # the peer stopped reading when it sent its request: the kernel takes nothing more, every send() would block
             self.f.sendplan = ["blockw" if self.f.tls else "block"] * 64
+        if PATTERN[0] == ["slow"] and not self.f.closed:
+            # the peer reads slowly: the kernel takes three bytes of whatever is offered first, then nothing more in this service
+            self.f.sendplan = [3] + ["blockw" if self.f.tls else "block"] * 64
         self.srv.service()
         st = "closed" if self.f.closed else "open"
         self.tymist.tick(tock=self.q)
